@@ -22,7 +22,7 @@ RULE = ('error kinds {404, 405, 400 undecodable path, 400 malformed chunked body
         'string, Host and X-Forwarded-Host; observed through Ombott.__call__ with debug off. Non-trivial = a marker reached the request; '
         'distinct = distinct (error kind, rendering, marker placement and payload).')
 PYOPT = {'quick': 1, 'thorough': 1}     # one unit of every kind is also served by an interpreter started with -O (assert statements compiled out)
-REQUIRED = ['units_run_under_python_-O', 'json_documents_of_graded_sizes', 'debug_switched_off_with_another_falsy_value', 'addresses_with_utf8_text_in_wsgi_form', 'addresses_of_thousands_of_characters', 'stock_page_reached_through_default_error_handler()', 'third_error_of_a_chain_rendered', 'debugging_application_in_same_process', 'tag_structure_compared_with_baseline', 'html_pages_parsed', 'json_bodies_parsed', 'marker_ids_found_escaped', 'kind_404', 'kind_405', 'kind_400_path', 'kind_400_body',
+REQUIRED = ['units_run_under_python_-O', 'addresses_with_hundreds_of_characters_to_escape', 'json_documents_of_graded_sizes', 'debug_switched_off_with_another_falsy_value', 'addresses_with_utf8_text_in_wsgi_form', 'addresses_of_thousands_of_characters', 'stock_page_reached_through_default_error_handler()', 'third_error_of_a_chain_rendered', 'debugging_application_in_same_process', 'tag_structure_compared_with_baseline', 'html_pages_parsed', 'json_bodies_parsed', 'marker_ids_found_escaped', 'kind_404', 'kind_405', 'kind_400_path', 'kind_400_body',
             'kind_413', 'kind_500', 'kind_last_resort', 'in_query', 'in_host', 'in_path', 'format_syntax_markers']
 ASSUMPTIONS = ['debug is off', 'text the application itself supplies (abort(400, "<i>..")) is not request data',
                'the page is HTML: markup is what html.parser recognises as a tag, attribute or entity']
@@ -366,6 +366,10 @@ def run_kind(ctx, app, lr_app, rng, i, kind, as_json, more_apps=None):
         ctx.violation('error-page-content-type', f'{kind}: {ctype!r}', wit)
     if kind != 'last' and as_json:
         check_json(ctx, r, kind, wit)
+    elif as_json and ctype.startswith('application/json'):
+        # the last-resort page may be HTML whatever was asked for; if it calls itself JSON it has to be JSON
+        check_json(ctx, r, kind, wit)
+        return
     if is_html or kind == 'last':
         check_html(ctx, r.body, markers, kind, wit)
         # the markup of the page is the same as with harmless values in the same places
@@ -390,6 +394,29 @@ def json_sweep(ctx, app):
             ctx.count('json_documents_of_graded_sizes')
             ctx.case(('json-sweep', kind, n), nontrivial=True)
             check_json(ctx, r, kind, {'unit': {'kind': 'note', 'error_kind': kind, 'json': True, 'query_length': len(qs)}})
+
+
+def crowd_sweep(ctx, app, lr_app):
+    """Addresses with very many characters that need escaping in front of the markup (a GET form with hundreds of fields, runs of
+    quotes and ampersands): the N-th special character is escaped like the first."""
+    for N in (0, 3, 100, 254, 255, 256, 257, 300, 511, 512, 513, 1000, 1025, 5000):
+        for fill in ('&', '"', "'", '<>', '&amp;'):
+            mid = 'zq%dx%d' % (N, len(fill))
+            payload = '<%s onmouseover=alert(1)>' % mid
+            if fill == '&':
+                qs = ''.join('f%d=1&' % j for j in range(N)) + 'q=' + payload
+            else:
+                qs = 'pre=' + fill * N + '&q=' + payload
+            for kind, env in (('404', make_environ('GET', '/nothing-here', qs=qs)), ('405', make_environ('DELETE', '/only-get', qs=qs)), ('500', make_environ('GET', '/crash', qs=qs)),
+                              ('last', make_environ('GET', '/crash', qs=qs))):
+                r = call_app(lr_app if kind == 'last' else app, env)
+                ctx.count('addresses_with_hundreds_of_characters_to_escape')
+                ctx.case(('crowd', N, fill, kind), nontrivial=True)
+                wit = {'unit': {'kind': 'note', 'error_kind': kind, 'specials_in_front_of_the_markup': N, 'special': fill}}
+                if r.code != {'404': 404, '405': 405, '500': 500, 'last': 500}[kind]:
+                    ctx.violation(f'request-data-changed-error-kind:{kind}->{r.code}', f'{N} x {fill!r} in the query: {r.status}', wit)
+                    continue
+                check_html(ctx, r.body, [(mid, payload, 'query')], kind, wit)
 
 
 KINDS = ['404', '405', '400_path', '400_body', '413', '500', 'last']
@@ -433,5 +460,7 @@ def run_unit(ctx, unit):
         run_kind(ctx, app, lr_app, rng, i, kind, as_json=(i // len(KINDS)) % 2 == 1, more_apps=more)
     if unit.get('sub', 0) == 0:
         json_sweep(ctx, app)
+    if unit.get('sub', 0) == 1:
+        crowd_sweep(ctx, app, lr_app)
     ctx.count('addresses_of_thousands_of_characters', LONG.get('n', 0) // 2)
     ctx.count('addresses_with_utf8_text_in_wsgi_form', LONG.get('utf8', 0) // 2)
